@@ -638,3 +638,162 @@ class _:
         return in_iv(r_fun(3, x), result)
 
     post_hints = ['lemma_r_fun_mono(3, rval(s[0]), x)', 'lemma_r_fun_mono(3, x, rval(s[1]))']
+
+
+# ------------------------------------------------------------------ complex intervals (C15): rectangles a + b*i
+def in_rect(xr, xi, z):
+    return in_iv(xr, z[0]) and in_iv(xi, z[1])
+
+
+def RECT(z):
+    return IVr(z[0]) and IVr(z[1])
+
+
+@contract(I + 'mpci_add', view='real')
+class _:
+    shapes = dict(x=('tuple', 'mpi', 'mpi'), y=('tuple', 'mpi', 'mpi'), prec='int')
+    result = ('tuple', 'mpi', 'mpi')
+    ghost_params = dict(xr='real', xi='real', yr='real', yi='real')
+    default_props = ['C15']
+    all_props = ['C15']
+    no_replay = True
+    call_insts = {('mpi_add', 0): [dict(x='xr', y='yr')], ('mpi_add', 1): [dict(x='xi', y='yi')]}
+
+    def requires(x, y, prec):
+        return RECT(x) and RECT(y) and prec >= 0
+
+    def requires_g(x, y, xr, xi, yr, yi):
+        return in_rect(xr, xi, x) and in_rect(yr, yi, y)
+
+    def ensures_valid(x, y, prec, result):
+        return RECT(result)
+
+    def ensures_contain(x, y, prec, xr, xi, yr, yi, result):
+        return in_rect(xr + yr, xi + yi, result)
+
+
+@contract(I + 'mpci_sub', view='real')
+class _:
+    shapes = dict(x=('tuple', 'mpi', 'mpi'), y=('tuple', 'mpi', 'mpi'), prec='int')
+    result = ('tuple', 'mpi', 'mpi')
+    ghost_params = dict(xr='real', xi='real', yr='real', yi='real')
+    default_props = ['C15']
+    all_props = ['C15']
+    no_replay = True
+    call_insts = {('mpi_sub', 0): [dict(x='xr', y='yr')], ('mpi_sub', 1): [dict(x='xi', y='yi')]}
+
+    def requires(x, y, prec):
+        return RECT(x) and RECT(y) and prec >= 0
+
+    def requires_g(x, y, xr, xi, yr, yi):
+        return in_rect(xr, xi, x) and in_rect(yr, yi, y)
+
+    def ensures_valid(x, y, prec, result):
+        return RECT(result)
+
+    def ensures_contain(x, y, prec, xr, xi, yr, yi, result):
+        return in_rect(xr - yr, xi - yi, result)
+
+
+@contract(I + 'mpci_neg', view='real')
+class _:
+    shapes = dict(x=('tuple', 'mpi', 'mpi'), prec='int')
+    result = ('tuple', 'mpi', 'mpi')
+    ghost_params = dict(xr='real', xi='real')
+    default_props = ['C15']
+    all_props = ['C15']
+    no_replay = True
+    call_insts = {('mpi_neg', 0): [dict(x='xr')], ('mpi_neg', 1): [dict(x='xi')]}
+
+    def requires(x, prec):
+        return RECT(x) and prec >= 0
+
+    def requires_g(x, xr, xi):
+        return in_rect(xr, xi, x)
+
+    def ensures_valid(x, prec, result):
+        return RECT(result)
+
+    def ensures_contain(x, prec, xr, xi, result):
+        return in_rect(-xr, -xi, result)
+
+
+@contract(I + 'mpci_pos', view='real')
+class _:
+    shapes = dict(x=('tuple', 'mpi', 'mpi'), prec='int')
+    result = ('tuple', 'mpi', 'mpi')
+    ghost_params = dict(xr='real', xi='real')
+    default_props = ['C15']
+    all_props = ['C15']
+    no_replay = True
+    call_insts = {('mpi_pos', 0): [dict(x='xr')], ('mpi_pos', 1): [dict(x='xi')]}
+
+    def requires(x, prec):
+        return RECT(x) and prec >= 0
+
+    def requires_g(x, xr, xi):
+        return in_rect(xr, xi, x)
+
+    def ensures_valid(x, prec, result):
+        return RECT(result)
+
+    def ensures_contain(x, prec, xr, xi, result):
+        return in_rect(xr, xi, result)
+
+
+@contract(I + 'mpci_mul', view='real')
+class _:
+    shapes = dict(x=('tuple', 'mpi', 'mpi'), y=('tuple', 'mpi', 'mpi'), prec='int')
+    result = ('tuple', 'mpi', 'mpi')
+    ghost_params = dict(xr='real', xi='real', yr='real', yi='real')
+    default_props = ['C15']
+    all_props = ['C15']
+    no_replay = True
+    call_insts = {('mpi_mul', 0): [dict(x='xr', y='yr')], ('mpi_mul', 1): [dict(x='xi', y='yi')],
+                  ('mpi_mul', 2): [dict(x='xr', y='yi')], ('mpi_mul', 3): [dict(x='xi', y='yr')],
+                  ('mpi_sub', 0): [dict(x='xr * yr', y='xi * yi')], ('mpi_add', 0): [dict(x='xr * yi', y='xi * yr')]}
+
+    def requires(x, y, prec):
+        return RECT(x) and RECT(y) and prec >= 0
+
+    def requires_g(x, y, xr, xi, yr, yi):
+        return in_rect(xr, xi, x) and in_rect(yr, yi, y)
+
+    def ensures_valid(x, y, prec, result):
+        return RECT(result)
+
+    def ensures_contain(x, y, prec, xr, xi, yr, yi, result):
+        return in_rect(xr * yr - xi * yi, xr * yi + xi * yr, result)
+
+
+@contract(I + 'mpci_div', view='real')
+class _:
+    shapes = dict(x=('tuple', 'mpi', 'mpi'), y=('tuple', 'mpi', 'mpi'), prec='int')
+    result = ('tuple', 'mpi', 'mpi')
+    ghost_params = dict(xr='real', xi='real', yr='real', yi='real')
+    default_props = ['C15']
+    all_props = ['C15']
+    no_replay = True
+    call_insts = {('mpi_square', 0): [dict(x='yr')], ('mpi_square', 1): [dict(x='yi')],
+                  ('mpi_add', 0): [dict(x='yr * yr', y='yi * yi')],
+                  ('mpi_mul', 0): [dict(x='xr', y='yr')], ('mpi_mul', 1): [dict(x='xi', y='yi')],
+                  ('mpi_add', 1): [dict(x='xr * yr', y='xi * yi')],
+                  ('mpi_mul', 2): [dict(x='xi', y='yr')], ('mpi_mul', 3): [dict(x='xr', y='yi')],
+                  ('mpi_sub', 0): [dict(x='xi * yr', y='xr * yi')],
+                  ('mpi_div', 0): [dict(x='xr * yr + xi * yi', y='yr * yr + yi * yi')],
+                  ('mpi_div', 1): [dict(x='xi * yr - xr * yi', y='yr * yr + yi * yi')]}
+
+    def requires(x, y, prec):
+        return RECT(x) and RECT(y) and prec >= 1
+
+    def requires_g(x, y, xr, xi, yr, yi):
+        return in_rect(xr, xi, x) and in_rect(yr, yi, y) and (yr != 0 or yi != 0)
+
+    def ensures_valid(x, y, prec, result):
+        return RECT(result)
+
+    def ensures_contain(x, y, prec, xr, xi, yr, yi, result):
+        return in_rect((xr * yr + xi * yi) / (yr * yr + yi * yi), (xi * yr - xr * yi) / (yr * yr + yi * yi), result)
+
+    # the denominator is a member of m and is not zero
+    post_hints = ['assert yr * yr + yi * yi > 0']
